@@ -39,6 +39,11 @@ func vfRoutingMicroScripts(property string) []vfMicroScript {
 	base := func(name string, faults int) *vfRouteScenario {
 		return &vfRouteScenario{Name: name, NS: 1, NT: 2, Scripts: two, InitHigh: 5, MaxWM: 1, MaxRepeat: 1, InOrder: true, MaxFaults: faults}
 	}
+	hung := func(sc *vfRouteScenario) *vfRouteScenario { sc.HungSource = true; return sc }
+	twoProxies := func(sc *vfRouteScenario) *vfRouteScenario {
+		sc.Proxies, sc.PlaceT, sc.PlaceS = 2, []int{0, 1}, []int{0}
+		return sc
+	}
 	switch property {
 	case "C08":
 		// overlapping incarnations on the real handlers; "@baseline" marks the set-up state whose registry the state
@@ -49,9 +54,17 @@ func vfRoutingMicroScripts(property string) []vfMicroScript {
 				Steps: []string{"reopenT:1", "emit:1", "breakOldT:1"}},
 			{Name: "source-reconnects-while-old-stream-alive", Scenario: base("micro-c08-S", 0), Setup: []string{"openT:1", "openT:2", "openS:1", "wm:1", "@baseline"},
 				Steps: []string{"reopenS:1", "emit:1", "breakOldSin:1"}},
+			// the same with a source that does not answer the half-close of the old pull stream, and the old stream the source
+			// shard initiated is never broken: the superseded incarnation must be ended by its successor
+			{Name: "source-reconnects-while-old-pull-stream-is-unresponsive", Scenario: hung(base("micro-c08-H", 0)), Setup: []string{"openT:1", "openT:2", "openS:1", "wm:1", "@baseline"},
+				Steps: []string{"reopenS:1", "emit:1"}},
 			// the old target stream breaks and the shard reconnects while the old sender is still shutting down
 			{Name: "target-breaks-and-reconnects-at-once", Scenario: base("micro-c08-B", 0), Setup: []string{"openT:1", "openT:2", "openS:1", "wm:1", "@baseline"},
 				Steps: []string{"breakT:1", "openT:1", "emit:1"}},
+			// two proxy instances: target shard 2 lives on n2, the source on n1; T2's stream breaks and the shard reconnects on
+			// n2 while a task for it crosses the intra-proxy stream (the peer's hand-off meets the old sender's shutdown)
+			{Name: "two-proxies-target-breaks-and-reconnects", Scenario: twoProxies(base("micro-c08-P", 0)), Setup: []string{"openT:1", "openT:2", "openS:1", "wm:1"},
+				Steps: []string{"breakT:2", "emit:1", "emit:1", "openT:2"}},
 			// a flapping reconnect: the old stream breaks, the shard reconnects and that stream breaks again at once
 			{Name: "target-flaps", Scenario: base("micro-c08-X", 0), Setup: []string{"openT:1", "openT:2", "openS:1", "wm:1"},
 				Steps: []string{"breakT:1", "openT:1", "breakT:1"}},
@@ -179,6 +192,15 @@ func vfRoutingMicroBody(ms vfMicroScript, property string) func(s *vrt.Sched) (s
 		if s.Deadlock != "" {
 			return "stuck/deadlock", s.Deadlock, "deadlock"
 		}
+		if s.HorizonHit {
+			// with the scheduler's fairness rule every goroutine that can make progress gets its turn: an execution that is
+			// still taking steps at the horizon is a retry loop that no longer depends on anybody else
+			tail := s.Trace
+			if len(tail) > 12 {
+				tail = tail[len(tail)-12:]
+			}
+			return "stuck/livelock-within-horizon", fmt.Sprintf("after %d scheduling decisions the execution is still running; last steps: %v", len(s.Points), tail), "livelock"
+		}
 		s.Detach()
 		synctest.Wait()
 		if property == "C08" {
@@ -214,6 +236,15 @@ func vfRoutingMicroBody(ms vfMicroScript, property string) func(s *vrt.Sched) (s
 				}
 				if ended[root] {
 					left = append(left, n)
+				}
+			}
+			// a source shard's older incarnation is ended by its successor (TerminatePreviousLocalReceiver), whether or not
+			// its own streams are still up
+			for _, src := range e.src {
+				for i := 0; i+1 < len(src.incoming); i++ {
+					if !src.incoming[i].returned {
+						e.violate("C08", "superseded-source-incarnation-still-running", fmt.Sprintf("6 s (virtual) after stream #%d of source shard %d was opened, the handler of its stream #%d is still running (broken=%v)", len(src.incoming)-1, src.idx, i, src.incoming[i].broken))
+					}
 				}
 			}
 			if len(left) > 0 {
